@@ -4,6 +4,7 @@ import GluonModel.Driver.DFlush
 
 -- DIALECT: judge-c05-flush judgeC05
 -- DIALECT: judge-c01-flush judgeC01
+-- DIALECT: judge-c01-merge judgeC01Merge
 namespace Gluon.Driver
 open Gluon Codec
 
@@ -54,21 +55,55 @@ def judgeC05 (args : List String) : String :=
         "violation readded-instance-visible-before-removal"
       else if hadExp then "ok nontrivial-heldback" else "ok trivial"
 
-/-- C01 on one observed flush: a client mirror that knew the whole snapshot, fed with the
-    responses, must agree with the snapshot the server now answers from. -/
+/-- executable `AllAtEnd` (Lemmas/Explicable.lean) -/
+def allAtEndB (close : Bool) (sid : Nat) : Snap → List Responder → Bool
+  | _, [] => true
+  | snap, r :: rs =>
+    (match r with
+     | .exists id uid _ _ _ => snap.has id || snap.all (·.uid < uid)
+     | _ => true) && allAtEndB close sid (r.handle close sid snap).snap rs
+
+/-- C01 on one observed flush = the statement of `C01.flush_explicable_partial` evaluated on the
+    implementation's answer: inside the theorem's hypotheses (no CLOSE context, no own-`.SILENT`
+    responder, every EXISTS adds at the end, no responder error) the flush must not panic and a
+    client mirror that knew the whole snapshot, fed with the responses, must agree with the snapshot
+    the server now answers from. Outside the hypotheses the case is only classified. -/
 def judgeC01 (args : List String) : String :=
   match parseFlushObs args with
   | none => "violation unparsable-implementation-output"
   | some o =>
-    if o.head == "panic" then "violation panic"
-    else if o.head == "err" then "violation flush-error-drops-responders"
+    let pop := (popResponders o.permit o.queue).1
+    if o.close then "ok outside-close"
+    else if pop.any (·.isSilent) then "ok outside-silent"
+    else if !(allAtEndB false o.sid o.snap pop) then "ok outside-notatend"
+    else if ((handleAll false o.sid o.snap pop).2.2.2).isSome then "ok outside-handler-error"
+    else if o.head != "ok" then s!"violation {o.head}-inside-hypotheses"
     else
       let m0 : Mirror := { msgs := o.snap.map fun m => { uid := some m.uid, flags := some m.flags } }
       match m0.applyAll o.out with
       | none => "violation inexplicable-response-stream"
       | some m =>
-        if !(m.agree o.snap') then
-          if o.close then "ok close-context" else "violation mirror-disagrees-with-snapshot"
+        if !(m.agree o.snap') then "violation mirror-disagrees-with-snapshot"
         else if o.out.isEmpty then "ok trivial" else "ok nontrivial"
+
+/-- C01 on one observed `Merge`: the statement of `C01.merge_sound` evaluated on the
+    implementation's answer. Words: `<n0> <input> => <impl output>` -/
+def judgeC01Merge (args : List String) : String :=
+  match args with
+  | [n0, input, "=>", out] =>
+    match parseResps input with
+    | none => "violation unparsable-input"
+    | some inp =>
+      let m0 := Mirror.ofCount (nat! n0)
+      match m0.applyAll inp with
+      | none => "ok outside-inexplicable"
+      | some m' =>
+        if out == "panic" then "violation merge-panics-on-explicable-stream"
+        else match parseResps out with
+          | none => "violation unparsable-implementation-output"
+          | some o =>
+            if m0.applyAll o == some m' then (if o == inp then "ok trivial" else "ok nontrivial")
+            else "violation merged-stream-changes-client-view"
+  | _ => "violation unparsable-implementation-output"
 
 end Gluon.Driver
